@@ -175,7 +175,15 @@ func (b *builder) htmlURLElement() {
 			b.w(" 2x, /img/b.png 1x")
 		}
 	} else {
-		switch rapid.IntRange(0, 5).Draw(b.t, "urlshape") {
+		switch rapid.IntRange(0, 7).Draw(b.t, "urlshape") {
+		case 6:
+			// two adjacent shows, the first one's value opening the query (seeded/C06-b)
+			b.hole("html.attr.url.whole."+qn, "/p?x=1")
+			b.hole("html.attr.url.query."+qn, "y")
+		case 7:
+			b.hole("html.attr.url.whole."+qn, "/p")
+			b.hole("html.attr.url.path."+qn, "x")
+			b.w("?a=1")
 		case 0:
 			b.hole("html.attr.url.whole."+qn, "/p")
 		case 1:
